@@ -6,6 +6,7 @@
 (*   minimum   value = least sample since the last reset                                        *)
 (*   single    value = latest sample                                                            *)
 (*   expavg, ema   value stays between the smallest and the largest sample since the last reset *)
+(*                 (up to 4 units in the last place: x*(1-f) + x*f need not be x in float64)    *)
 (*   variance  values are non-negative (class ok)                                               *)
 (*   percentile  an estimate (may go below zero: sign logged separately); only flag and reset   *)
 (*   all       Add's flag is true whenever the stored value changed; after Reset the instance   *)
@@ -43,7 +44,7 @@ CheckAdd(c, s, e) ==
   ELSE IF e.twincls # e.cls \/ e.twin # e.val THEN "after Reset the instance differs from a fresh one fed the same samples"
   ELSE IF c.kind = "minimum" /\ e.val # lo THEN "minimum is not the least sample since reset"
   ELSE IF c.kind = "single" /\ e.val # e.x THEN "single is not the latest sample"
-  ELSE IF c.kind \in {"expavg", "ema"} /\ ~(Le3(lo, e.val) /\ Le3(e.val, hi)) THEN "average left the hull of the samples seen"
+  ELSE IF c.kind \in {"expavg", "ema"} /\ ~(Le3(lo, e.valup) /\ Le3(e.valdn, hi)) THEN "average left the hull of the samples seen"   \* up to 4 ulp (valdn, valup)
   ELSE ""
 
 (* Update(operation): the operation is applied to the stored value and its result is stored (minimum: offered as a *)
